@@ -192,18 +192,23 @@ fn distinct<const L: usize>(keys: &[u8; L], len: usize) -> usize {
 }
 
 /// source iterator whose `next` is a fault point
-struct PSrc<const L: usize> { keys: [u8; L], pos: usize, len: usize }
+struct PSrc<const L: usize> { keys: [u8; L], pos: usize, len: usize, slack_lo: usize, slack_hi: Option<usize> }
 impl<const L: usize> Iterator for PSrc<L> {
     type Item = (Tok, Tok);
     fn next(&mut self) -> Option<(Tok, Tok)> {
         tok::fault_point();
         if self.pos < self.len && self.pos < L { let i = self.pos; self.pos += 1; Some((Tok::new(self.keys[i]), Tok::new(i as u8))) } else { None }
     }
+    fn size_hint(&self) -> (usize, Option<usize>) {
+        let rem = self.len - self.pos;
+        (rem.saturating_sub(self.slack_lo), self.slack_hi.map(|s| rem.saturating_add(s)))
+    }
 }
 struct KSrc<const L: usize>(PSrc<L>);
 impl<const L: usize> Iterator for KSrc<L> {
     type Item = Tok;
     fn next(&mut self) -> Option<Tok> { self.0.next().map(|(k, v)| { drop(v); k }) }
+    fn size_hint(&self) -> (usize, Option<usize>) { self.0.size_hint() }
 }
 
 /// collect: the partially built collection is dropped by the cleanup; overflow panics of the container itself included
@@ -215,6 +220,7 @@ pub fn c04_from_iter<const N: usize, const L: usize>() {
     let mut i = 0;
     while i < L { keys[i] = vf::any_u8(); i += 1; }
     let as_set = vf::any_bool();
+    let (slack_lo, slack_hi) = (vf::any_usize(), if vf::any_bool() { Some(vf::any_usize()) } else { None });
     // at most N distinct keys: an overflow panic of the container plus the injected one would be a double
     // panic (process abort), which is outside the claim; the overflow path alone is C03's c03_from_iter
     vf::assume(distinct(&keys, len) <= N);
@@ -224,7 +230,7 @@ pub fn c04_from_iter<const N: usize, const L: usize>() {
     let panicked = {
         let (o, os) = (&mut out, &mut outs);
         vf::catch(move || {
-            let src = PSrc::<L> { keys, pos: 0, len };
+            let src = PSrc::<L> { keys, pos: 0, len, slack_lo, slack_hi };
             if as_set { *os = Some(KSrc(src).collect()); } else { *o = Some(src.collect()); }
         })
     };
@@ -249,8 +255,9 @@ pub fn c04_set_extend<const N: usize, const L: usize>() {
         let mut i = 0;
         while i < L { if i < len { vf::assume(sim.n < N || sim.has(keys[i])); sim.insert(keys[i], 0, 0, 0); } i += 1; }
     }
+    let (slack_lo, slack_hi) = (vf::any_usize(), if vf::any_bool() { Some(vf::any_usize()) } else { None });
     arm();
-    let panicked = { let ss = &mut s; vf::catch(move || { ss.extend(KSrc(PSrc::<L> { keys, pos: 0, len })); }) };
+    let panicked = { let ss = &mut s; vf::catch(move || { ss.extend(KSrc(PSrc::<L> { keys, pos: 0, len, slack_lo, slack_hi })); }) };
     survivor_set(&mut s);
     drop(s);
     done(panicked);
